@@ -99,7 +99,21 @@ class int_(metaclass=_IntMeta):
             return parse_int_text(x, base.__index__())
         return _b.int(x, base)
 
-    from_bytes = _b.int.from_bytes
+    @staticmethod
+    def from_bytes(data, byteorder="big", *, signed=False):
+        from .struct_model import _int_from_items
+        items = symbytes._items_of(data)
+        if items is None:
+            items = [symbytes._check_byte(b) for b in data]
+        if byteorder not in ("little", "big"):
+            raise ValueError("byteorder must be either 'little' or 'big'")
+        if not items:
+            return 0
+        if len(items) > 15:
+            if all(type(b) is _b.int for b in items):
+                return _b.int.from_bytes(_b.bytes(items), byteorder, signed=signed)
+            raise Unsupported("int.from_bytes of more than 15 symbolic bytes")
+        return _int_from_items(items, signed, byteorder == "big")
 
 
 class _BoolMeta(type):
